@@ -20,11 +20,11 @@ Lemma refc_same : forall r t n, refc r (t, n) = match d_get (reg_get r t) n with
 Proof. reflexivity. Qed.
 
 (* ------------------------------------------------------------------ a step moves the counter as the spec says *)
-Lemma step_refc : forall w cf r l k, wf r ->
-  refc (o_reg (step w cf r l)) k = cnt_step k (refc r k) (classify l).
+Lemma step_req_refc : forall w cf r q k, wf r ->
+  refc (o_reg (step_req w cf r q)) k = cnt_step k (refc r k) q.
 Proof.
-  intros w cf r l k W. unfold step.
-  destruct (classify l) as [| | |t n|t n|t n|]; cbn [o_reg fst cnt_step]; try reflexivity.
+  intros w cf r q k W. unfold step_req.
+  destruct q as [| | |t n|t n|t n|]; cbn [o_reg fst cnt_step]; try reflexivity.
   - (* REGISTER *)
     destruct (key_eqb (t, n) k) eqn:E.
     + apply key_eqb_true_iff in E. subst k. unfold refc at 1. rewrite lookup_put_same. rewrite refc_same.
@@ -59,26 +59,38 @@ Proof.
       * apply d_get_set_other; assumption.
 Qed.
 
+Lemma step_refc : forall w cf r l k, wf r ->
+  refc (o_reg (step w cf r l)) k = cnt_step k (refc r k) (classify l).
+Proof. intros. apply step_req_refc. assumption. Qed.
+
 (* what a step deletes *)
+Lemma step_req_del : forall w cf r q,
+  o_del (step_req w cf r q) =
+  match q with
+  | QMaybeUnlink t n => if refc r (t, n) =? 1 then [(t, n)] else []
+  | _ => []
+  end.
+Proof.
+  intros w cf r q. unfold step_req. destruct q as [| | |t n|t n|t n|]; cbn [o_del fst snd]; try reflexivity.
+  - destruct (d_get (reg_get r t) n); reflexivity.
+  - rewrite refc_same. destruct (d_get (reg_get r t) n) as [c|]; cbn [o_del fst snd]; [|reflexivity].
+    destruct (c - 1 =? 0) eqn:A, (c =? 1) eqn:B; cbn [o_del fst snd]; try reflexivity; lia.
+Qed.
+
 Lemma step_del : forall w cf r l,
   o_del (step w cf r l) =
   match classify l with
   | QMaybeUnlink t n => if refc r (t, n) =? 1 then [(t, n)] else []
   | _ => []
   end.
-Proof.
-  intros w cf r l. unfold step. destruct (classify l) as [| | |t n|t n|t n|]; cbn [o_del fst snd]; try reflexivity.
-  - destruct (d_get (reg_get r t) n); reflexivity.
-  - rewrite refc_same. destruct (d_get (reg_get r t) n) as [c|]; cbn [o_del fst snd]; [|reflexivity].
-    destruct (c - 1 =? 0) eqn:A, (c =? 1) eqn:B; cbn [o_del fst snd]; try reflexivity; lia.
-Qed.
+Proof. intros. apply step_req_del. Qed.
 
 (* neither the outcome of the clean-up function nor the warning filter influences the registry
    or the deletions *)
 Lemma step_env_irrelevant : forall w cf w' cf' r l,
   o_reg (step w cf r l) = o_reg (step w' cf' r l) /\ o_del (step w cf r l) = o_del (step w' cf' r l).
 Proof.
-  intros. unfold step. destruct (classify l) as [| | |t n|t n|t n|]; cbn; auto.
+  intros. unfold step, step_req. destruct (classify l) as [| | |t n|t n|t n|]; cbn; auto.
   destruct (d_get (reg_get r t) n) as [c|]; cbn; auto. destruct (c - 1 =? 0); cbn; auto.
 Qed.
 
@@ -86,7 +98,7 @@ Qed.
 Lemma step_error_unchanged : forall w cf r l e,
   o_err (step w cf r l) = Some e -> e <> EWarning -> o_reg (step w cf r l) = r /\ o_del (step w cf r l) = [].
 Proof.
-  intros w cf r l e. unfold step. destruct (classify l) as [| | |t n|t n|t n|]; cbn; auto; try discriminate.
+  intros w cf r l e. unfold step, step_req. destruct (classify l) as [| | |t n|t n|t n|]; cbn; auto; try discriminate.
   - destruct (d_get (reg_get r t) n); cbn; auto; discriminate.
   - destruct (d_get (reg_get r t) n) as [c|]; cbn; auto.
     destruct (c - 1 =? 0); cbn; [|discriminate]. destruct (cf (t, n) && w); [|discriminate].
@@ -98,14 +110,14 @@ Definition malformed (q : request) : Prop := q = QDecodeError \/ q = QBadType \/
 Lemma step_malformed : forall w cf r l, malformed (classify l) ->
   o_reg (step w cf r l) = r /\ o_del (step w cf r l) = [] /\ o_err (step w cf r l) <> None.
 Proof.
-  intros w cf r l [H|[H|H]]; unfold step; rewrite H; cbn; repeat split; discriminate.
+  intros w cf r l [H|[H|H]]; unfold step, step_req; rewrite H; cbn; repeat split; discriminate.
 Qed.
 
 Lemma step_unbalanced : forall w cf r l t n,
   classify l = QMaybeUnlink t n \/ classify l = QUnregister t n -> lookup r (t, n) = None ->
   o_reg (step w cf r l) = r /\ o_del (step w cf r l) = [] /\ o_err (step w cf r l) = Some EKey.
 Proof.
-  intros w cf r l t n [H|H] L; unfold step; rewrite H; unfold lookup in L; cbn [fst snd] in L; rewrite L; cbn; auto.
+  intros w cf r l t n [H|H] L; unfold step, step_req; rewrite H; unfold lookup in L; cbn [fst snd] in L; rewrite L; cbn; auto.
 Qed.
 
 Lemma step_del_registered : forall w cf r l k, In k (o_del (step w cf r l)) -> lookup r k <> None.
@@ -292,10 +304,10 @@ Lemma sync_transparent : forall w cf r l1 l2 l3 t s,
 Proof.
   intros w cf r l1 l2 l3 t s C1 C2 C3 L. unfold lookup in L. cbn [fst snd] in L.
   assert (S1 : step w cf r l1 = (reg_put r t (d_set (reg_get r t) s 1), [], None)).
-  { unfold step. rewrite C1, L. reflexivity. }
+  { unfold step, step_req. rewrite C1, L. reflexivity. }
   set (r1 := reg_put r t (d_set (reg_get r t) s 1)) in *.
   assert (S2 : o_reg (step w cf r1 l2) = r /\ o_del (step w cf r1 l2) = [(t, s)]).
-  { unfold step. rewrite C2. unfold r1. rewrite reg_get_put_same, d_get_set_same.
+  { unfold step, step_req. rewrite C2. unfold r1. rewrite reg_get_put_same, d_get_set_same.
     change (1 - 1 =? 0) with true. cbn [o_reg o_del fst snd].
     rewrite d_del_set by (rewrite d_get_set_same; discriminate).
     rewrite d_del_set_absent by exact L. rewrite reg_put_put_get. auto. }
